@@ -269,7 +269,7 @@ func runHist(h *hist, keys []keyInfo) {
 		}
 		return peers[0].send(&floodsub.Packet{Publish: []*peer.SignedMsg{sm}}) == nil
 	}
-	markerID := 100000
+	markerID := 1000
 	for _, op := range h.ops {
 		switch op.kind {
 		case "peer":
@@ -415,7 +415,7 @@ func runHist(h *hist, keys []keyInfo) {
 // that the history given to the model is exactly what the node saw
 func (h *hist) modelOps() []hop {
 	var out []hop
-	markerID := 100000
+	markerID := 1000
 	for _, op := range h.ops {
 		out = append(out, op)
 		if op.kind == "msg" && op.a != markerCh {
